@@ -3,6 +3,7 @@ import RbpfModel.Model.Hex
 import RbpfModel.Model.Verifier
 import RbpfModel.Model.WellFormed
 import RbpfModel.Model.Interp
+import RbpfModel.Model.Isa
 namespace Rbpf.Drive
 open Rbpf.Hex
 
@@ -112,12 +113,17 @@ def handleExec (toks : List String) : String :=
     match Verifier.check prog with
     | .ok =>
       let env := mkEnv c prog
-      match Interp.run env (Interp.init (mkMem c)) c.budget with
-      | .done r s => s!"ok r0={bvHex r}" ++ detail c s
-      | .err e s => s!"err:{errName e}" ++ detail c s
-      | .panic => "panic"
-      | .fault => "fault"
-      | .timeout s => "budget" ++ detail c s
+      let render (r : Interp.Result) : String := match r with
+        | .done r s => s!"ok r0={bvHex r}" ++ detail c s
+        | .err e s => s!"err:{errName e}" ++ detail c s
+        | .panic => "panic"
+        | .fault => "fault"
+        | .timeout s => "budget" ++ detail c s
+      let m := render (Interp.run env (Interp.init (mkMem c)) c.budget)
+      if (look (kvOf toks) "spec") == some "isa" then
+        let f7 := (List.range (prog.size / 8)).any fun k => match getInsn? prog k with | some i => Isa.isF7 i | none => false
+        m ++ " | spec=" ++ render (Isa.run env (Interp.init (mkMem c)) c.budget) ++ (if f7 then " | tags=f7" else "")
+      else m
     | _ => "rejected"
 
 def vres : Verifier.VRes → String | .ok => "ok" | .err => "err" | .panic => "panic"
